@@ -11,6 +11,7 @@ import (
 	"hash/fnv"
 	"io"
 	"path"
+	"sort"
 	"strings"
 	"sync"
 	"time"
@@ -44,6 +45,10 @@ type ExtSpec struct {
 	Pred Pred   `json:"pred"`
 	// PkgsMod: number of packages returned for a file is hash(path) % (PkgsMod+1) (0..PkgsMod).
 	PkgsMod int `json:"pkgs_mod"`
+	// ExtraLocs > 0: every package is reported at that many further locations besides the
+	// file, and the extractor lists the locations unsorted (C08: the documented order sorts
+	// each package's locations and breaks ties between packages by the sorted lists).
+	ExtraLocs int `json:"extra_locs,omitempty"`
 	// ErrMod > 0: Extract returns an error for files with hash(name|path) % ErrMod == 0.
 	ErrMod int `json:"err_mod,omitempty"`
 	// NamePool > 0 draws package names from a pool of that size (so that sort keys tie).
@@ -131,7 +136,22 @@ func (s ExtSpec) ExpectedPackages(filePath string) []PkgKey {
 			name = prefixNames[h%uint32(len(prefixNames))]
 			ver = prefixVersions[(h/31)%uint32(len(prefixVersions))]
 		}
-		out = append(out, PkgKey{Name: name, Version: ver, Extractor: s.Name, Locations: filePath})
+		locs := s.PackageLocations(filePath, i)
+		sort.Strings(locs)
+		out = append(out, PkgKey{Name: name, Version: ver, Extractor: s.Name, Locations: strings.Join(locs, "\x1f")})
+	}
+	return out
+}
+
+// PackageLocations is the location list, in the order the fake extractor reports it, of the
+// i-th package found in a file.
+func (s ExtSpec) PackageLocations(filePath string, i int) []string {
+	if s.ExtraLocs <= 0 {
+		return []string{filePath}
+	}
+	out := []string{fmt.Sprintf("~z-%04x", Hash(fmt.Sprintf("%s|l1|%s|%d", s.Name, filePath, i))%0x10000), filePath}
+	if s.ExtraLocs >= 2 {
+		out = append(out, fmt.Sprintf("+a-%04x", Hash(fmt.Sprintf("%s|l2|%s|%d", s.Name, filePath, i))%0x10000))
 	}
 	return out
 }
@@ -290,8 +310,8 @@ func (e *FSExtractor) Extract(ctx context.Context, input *filesystem.ScanInput) 
 	}
 	e.Rec.mu.Unlock()
 	inv := inventory.Inventory{}
-	for _, k := range e.Spec.ExpectedPackages(input.Path) {
-		inv.Packages = append(inv.Packages, &extractor.Package{Name: k.Name, Version: k.Version, Locations: []string{input.Path}})
+	for i, k := range e.Spec.ExpectedPackages(input.Path) {
+		inv.Packages = append(inv.Packages, &extractor.Package{Name: k.Name, Version: k.Version, Locations: e.Spec.PackageLocations(input.Path, i)})
 	}
 	if ref, extra, ok := e.Spec.ExpectedFinding(input.Path); ok {
 		inv.Findings = append(inv.Findings, &detector.Finding{
